@@ -28,6 +28,7 @@ func init() {
 		c13Nan(fs)
 		c13IncRule(fs)
 		c13Dup(fs)
+		c13Rmval(fs)
 		c13Magic(fs)
 	}})
 }
@@ -329,6 +330,54 @@ func c13Dup(fs *Facts) {
 		return
 	}
 	fs.Enum(name, "unknown", path+":"+itoa(f.Line(is)))
+}
+
+// removeValCompare: scalarBytes — the loop of applyRemoveVal skips every non-leaf element
+// (`if item.Kind != KindLeaf { continue }`) and compares leafBytes with op.Value;
+// canonical — it compares elementBytes(item, orig) with canonicalValue(op.Value), where
+// elementBytes serialises containers and canonicalValue is Parse + Serialize for map/array codes.
+func c13Rmval(fs *Facts) {
+	const name = "removeValCompare"
+	const path = c13Dir + "remove.go"
+	f, err := Load(path)
+	if err != nil {
+		fs.Err("%v", err)
+		fs.Enum(name, "unknown", path)
+		return
+	}
+	fd := f.Func("", "applyRemoveVal")
+	if fd == nil || fd.Body == nil {
+		fs.Enum(name, "unknown", path)
+		return
+	}
+	var loop *ast.RangeStmt
+	ast.Inspect(fd.Body, func(n ast.Node) bool {
+		if r, ok := n.(*ast.RangeStmt); ok && f.Str(r.X) == "cur.Target.ArrayItems" {
+			loop = r
+		}
+		return true
+	})
+	if loop == nil {
+		fs.Enum(name, "unknown", path+":"+itoa(f.Line(fd)))
+		return
+	}
+	body := strings.Join(strings.Fields(f.Str(loop.Body)), " ")
+	where := path + ":" + itoa(f.Line(loop))
+	skips := strings.Contains(body, "if item.Kind != KindLeaf { continue }")
+	rawCmp := strings.Contains(body, "bytes.Equal(raw, op.Value)") && strings.Contains(body, "raw := leafBytes(item, orig)")
+	canonCmp := strings.Contains(body, "elementBytes(item, orig)") && strings.Contains(body, "bytes.Equal(have, want)") &&
+		f.Contains(fd.Body, "want := canonicalValue(op.Value)")
+	eb, cv := f.Func("", "elementBytes"), f.Func("", "canonicalValue")
+	helpers := eb != nil && cv != nil && f.Contains(eb.Body, "item.Serialize(orig)") && f.Contains(eb.Body, "canonicalValue(") &&
+		f.Contains(cv.Body, "Parse(raw)") && f.Contains(cv.Body, "skel.Serialize(raw)") && f.Contains(cv.Body, "isMapCode(raw[0]) || isArrayCode(raw[0])")
+	switch {
+	case skips && rawCmp && !canonCmp:
+		fs.Enum(name, "scalarBytes", where)
+	case canonCmp && helpers && !skips:
+		fs.Enum(name, "canonical", where)
+	default:
+		fs.Enum(name, "unknown", where)
+	}
 }
 
 func c13Magic(fs *Facts) {
